@@ -505,3 +505,92 @@ func checkEventBuffer(c *report.Ctx, clauseLimit bool) {
 		c.Check("R-WIRE", an.FuncName(r)+"/body-is-buffer", "the body handed to the runtime is exactly the buffered event bytes (single Write of requestBuffer.Bytes())", okW, fpos(r), len(ws), "%d body writes", len(ws))
 	}
 }
+
+// checkOneBodyPerRequest: on every path of the front end's invoke handler at most one body is written to
+// the caller (the function's response, the failure body or the timeout message - never two of them).
+func checkOneBodyPerRequest(c *report.Ctx) {
+	f := fn(c, "M/cmd/aws-lambda-rie", "InvokeHandler")
+	if f == nil {
+		return
+	}
+	nsites := 0
+	_, max := an.Count(f, func(in ssa.Instruction) bool {
+		call, ok := in.(*ssa.Call)
+		if ok && an.Callee(call) == "net/http.ResponseWriter.Write" {
+			nsites++
+			return true
+		}
+		return false
+	})
+	c.Check("R-COUNT", an.FuncName(f)+"/one-body-per-request", "on every path the caller is sent at most one body: the response, the failure body or the timeout message, never one after the other", max == 1 && nsites >= 2, fpos(f), nsites, "Write sites: %d; maximum on a path: %d", nsites, max)
+}
+
+// checkFirstFatalErrorLifetime: the record of the first unrecoverable fault lives until the reset that
+// tears the generation down - it is deleted by reinitialize only. (A fault recorded while the environment
+// was idle must still be there when the next invocation fails and builds its error body from it.)
+func checkFirstFatalErrorLifetime(c *report.Ctx) {
+	k := c.P.Const("L/appctx", "AppCtxFirstFatalErrorKey")
+	if k == nil {
+		c.Unresolved("ANCHOR", "L/appctx.AppCtxFirstFatalErrorKey", "constant not found")
+		return
+	}
+	want, _ := an.ConstInt(k.Value)
+	var deleters []string
+	var pos token.Pos
+	n := 0
+	for _, f := range repoFuncs(c) {
+		if strings.HasPrefix(an.FuncName(f), "L/testdata.") {
+			continue
+		}
+		for _, call := range an.CallsTo(f, "L/appctx.ApplicationContext.Delete") {
+			args := call.Common().Args
+			if len(args) == 0 {
+				continue
+			}
+			if v, isC := an.ConstInt(args[0]); !isC || v == want {
+				n++
+				deleters = append(deleters, an.FuncName(f))
+				if !oneOf(an.FuncName(f), "L/rapid.reinitialize", "L/rapid.shutdownContext.shutdown") && pos == token.NoPos {
+					pos = an.InstrPos(call)
+				}
+			}
+		}
+	}
+	sort.Strings(deleters)
+	ok := len(deleters) >= 1
+	for _, d := range deleters {
+		if !oneOf(d, "L/rapid.reinitialize", "L/rapid.shutdownContext.shutdown") {
+			ok = false
+		}
+	}
+	c.Check("R-WHO", "L/appctx.AppCtxFirstFatalErrorKey/deleted-only-by-teardown", "the first-fatal-error record is deleted only by the teardown of a generation (shutdown, entered from reset/shutdown handling after the failure was answered, and reinitialize, the last step of a reset): it survives from the fault to the failure answer that names it", ok, pos, n, "deleted in: %v", deleters)
+}
+
+// checkAwaitReleaseOnlyOnSuccess: AwaitRelease frees the reservation only for a DONE without error type.
+// After a failed invocation the reservation must stay until the reset that follows has completed
+// (Server.Reset releases it at its end): freeing it earlier admits a new caller into the reset window.
+func checkAwaitReleaseOnlyOnSuccess(c *report.Ctx) {
+	ar := fn(c, rapidcP, "(*Server).AwaitRelease")
+	if ar == nil {
+		return
+	}
+	af := an.NewFacts(ar)
+	rel := an.CallsTo(ar, srvT+".Release")
+	ok := len(rel) >= 1
+	pos := fpos(ar)
+	for _, r := range rel {
+		zero := false
+		for _, ft := range af.At(r.Block()) {
+			if x, z, _ := an.LenSign(ft); x != nil && z {
+				if fr, k := an.AsField(x); k && fr.Field == "ErrorType" {
+					zero = true
+				}
+			}
+		}
+		if _, plain := r.(*ssa.Call); !plain || !zero {
+			ok = false
+			pos = an.InstrPos(r)
+		}
+	}
+	c.Check("R-GUARD", an.FuncName(ar)+"/releases-only-on-success", "AwaitRelease frees the reservation only when the DONE carries no error type; after a failure the reservation is held until the reset has completed", ok, pos, len(rel), "Release sites: %d, all under 'no error type': %v", len(rel), ok)
+}
